@@ -4,6 +4,8 @@ import (
 	"context"
 	"encoding/json"
 	"fmt"
+	openfgav1 "github.com/openfga/api/proto/openfga/v1"
+	"google.golang.org/grpc/metadata"
 	"math/rand"
 	"strings"
 
@@ -55,6 +57,7 @@ func C32(run *Run) {
 	nCases := run.Pick(80, 1500)
 	rec := &Recorder{}
 	skippedInvalid := 0
+	pinnedCases, emptyBatches := 0, 0
 	for c := 0; c < nCases; c++ {
 		var cs *Case
 		propCase := c%8 == 7
@@ -83,6 +86,20 @@ func C32(run *Run) {
 			run.Inconclusive("typesystem: %v", err)
 		}
 		rec.Setup(cs.SetupEv())
+		// every fourth case the store gets a second, newer model: the AuthZEN calls pin the case's model
+		// through the Openfga-Authorization-Model-Id header, as the native calls do through the request field
+		actx := ctx
+		pinned := false
+		if c%4 == 1 && !propCase {
+			other, _ := GenCase(rand.New(rand.NewSource(run.Seed*1000+int64(c))), c, GenOpts{})
+			pm := other.Model.ToProto()
+			if _, err := env.S.WriteAuthorizationModel(ctx, &openfgav1.WriteAuthorizationModelRequest{StoreId: env.StoreID, SchemaVersion: pm.GetSchemaVersion(), TypeDefinitions: pm.GetTypeDefinitions(), Conditions: pm.GetConditions()}); err == nil {
+				actx = metadata.NewIncomingContext(ctx, metadata.Pairs(strings.ToLower(server.AuthorizationModelIDHeader), env.ModelID))
+				pinned = true
+				pinnedCases++
+			}
+		}
+		_ = pinned
 		var reqs []Req
 		if propCase {
 			for i := 0; i < 14; i++ {
@@ -162,7 +179,7 @@ func C32(run *Run) {
 		// ---- single evaluations
 		solos := map[int]*CheckEv{}
 		for i, m := range ms {
-			resp, err := env.S.Evaluation(ctx, &authzenv1.EvaluationRequest{StoreId: env.StoreID, Subject: m.subj, Resource: m.res, Action: m.act, Context: m.rctx})
+			resp, err := env.S.Evaluation(actx, &authzenv1.EvaluationRequest{StoreId: env.StoreID, Subject: m.subj, Resource: m.res, Action: m.act, Context: m.rctx})
 			if err != nil && status.Code(err) == codes.InvalidArgument && strings.Contains(err.Error(), "EvaluationRequest") {
 				skippedInvalid++ // the AuthZEN request schema refuses this subject / resource form: no mapped request
 				continue
@@ -243,7 +260,7 @@ func C32(run *Run) {
 					req.Options = &authzenv1.EvaluationsOptions{EvaluationsSemantic: authzenv1.EvaluationsSemantic_execute_all}
 				}
 			}
-			resp, err := env.S.Evaluations(ctx, req)
+			resp, err := env.S.Evaluations(actx, req)
 			got := []string{}
 			if err != nil {
 				bev["err"], bev["errmsg"] = true, err.Error()
@@ -255,6 +272,27 @@ func C32(run *Run) {
 			rec.Add(bev)
 			run.Evals++
 		}
+		// ---- a batch without items behaves like the single evaluation of its top-level fields
+		for k := 0; k < 3; k++ {
+			i := r.Intn(len(ms))
+			if _, ok := solos[i]; !ok {
+				continue
+			}
+			m := ms[i]
+			solo := native(m)
+			rec.Add(solo)
+			resp, err := env.S.Evaluations(actx, &authzenv1.EvaluationsRequest{StoreId: env.StoreID, Subject: m.subj, Resource: m.res, Action: m.act, Context: m.rctx})
+			got := []string{}
+			if err != nil {
+				got = append(got, "ERR")
+			}
+			for _, e := range resp.GetEvaluations() {
+				got = append(got, gotOfEval(e))
+			}
+			rec.Add(map[string]any{"e": "Evals", "eng": "authzen:evaluations:empty", "sem": "all", "err": false, "got": got, "solos": []string{solo.Got}})
+			run.Evals++
+			emptyBatches++
+		}
 		// ---- searches
 		for k := 0; k < 6; k++ {
 			m := ms[r.Intn(len(ms))]
@@ -265,7 +303,7 @@ func C32(run *Run) {
 				var resp *authzenv1.ResourceSearchResponse
 				var err error
 				if !Watchdog(HangLimit, func() {
-					resp, err = env.S.ResourceSearch(ctx, &authzenv1.ResourceSearchRequest{StoreId: env.StoreID, Subject: m.subj, Action: m.act,
+					resp, err = env.S.ResourceSearch(actx, &authzenv1.ResourceSearchRequest{StoreId: env.StoreID, Subject: m.subj, Action: m.act,
 						Resource: &authzenv1.ResourceFilter{Type: m.q.O.T, Properties: m.res.GetProperties()}, Context: m.rctx})
 				}) {
 					ev.IsErr, ev.Errk = true, "hang"
@@ -291,7 +329,7 @@ func C32(run *Run) {
 			nat := &ListUsersEv{Eng: "server", O: m.q.O, R: m.q.R, FT: ft, Ctx: m.q.Ctx}
 			env.RunListUsers(ctx, nat)
 			ev := &ListUsersEv{E: "ListUsers", Eng: "authzen:subjectsearch", O: m.q.O, R: m.q.R, FT: ft, Ctx: normCtx(m.q.Ctx), Ctxt: []Tuple{}, Got: []Subj{}}
-			resp, err := env.S.SubjectSearch(ctx, &authzenv1.SubjectSearchRequest{StoreId: env.StoreID, Resource: m.res, Action: m.act,
+			resp, err := env.S.SubjectSearch(actx, &authzenv1.SubjectSearchRequest{StoreId: env.StoreID, Resource: m.res, Action: m.act,
 				Subject: &authzenv1.SubjectFilter{Type: ft, Properties: m.subj.GetProperties()}, Context: m.rctx})
 			if err != nil {
 				if status.Code(err) == codes.InvalidArgument && strings.Contains(err.Error(), "SubjectSearchRequest") {
@@ -320,9 +358,11 @@ func C32(run *Run) {
 	run.Coverage["rule"] = "C01 cases plus a property-mapping scenario (condition parameters named subject_x / resource_x / action_x, properties on subject, resource and action, request context overriding them); AuthZEN Evaluation for every generated native request (object, typed-wildcard and userset subjects), Evaluations under execute_all / deny_on_first_deny / permit_on_first_permit with inherited top-level fields, SubjectSearch and ResourceSearch; TLC (ApiTrace.tla): every decision equals the native Check of the mapped request issued in the same run and the reference Chk; batched responses equal the native outcomes cut at the first deny / permit; search results equal the native ListUsers / ListObjects result and the reference; non-trivial = distinct (model, tuples, request)"
 	run.Coverage["cases"] = nCases
 	run.Coverage["skipped_by_authzen_request_schema"] = skippedInvalid
+	run.Coverage["cases_with_pinned_older_model"] = pinnedCases
+	run.Coverage["batches_without_items"] = emptyBatches
 	run.Coverage["judged_by_tlc"] = sum.Judged
 	run.Coverage["verdict_classes"] = sum.Counts
-	run.Assumptions = []string{"reference = FGACore.Chk", "model id taken from the store's latest model (no header)", "requests the AuthZEN schema itself refuses have no mapped native request and are skipped (counted)"}
+	run.Assumptions = []string{"reference = FGACore.Chk", "in three of four cases the model id is the store's latest model (no header); in the fourth an older model is pinned by header", "requests the AuthZEN schema itself refuses have no mapped native request and are skipped (counted)"}
 }
 
 // withNative renders ev with an extra "native" field (the native API's result for the mapped request).
